@@ -83,7 +83,7 @@ c.finish(
     trusted=[
         "hand-written Gallina models coq/C04/{XRef,XRefText,Extent}.v of xref.go / reader.go / scanner.go, tied by correspondence",
         "Gen_Consts.v (class table, maxGeneration, maxXRefSize) regenerated from the Go source on every run",
-        "coq/C04/Seq.v: the independent renderer (extracted and run; nothing is proved about it as a whole)",
+        "coq/C04/Seq.v: the independent renderer (extracted and run; proved about it: the shape of the file in RenderShape.v and literal_string_rt for its literal strings against coq/C04/LitString.v, the 7.3.4.2 reader)",
         "the 30-line Go reference model in harness/c04 (reference()) used as the direct oracle",
     ],
     partial=[
